@@ -74,6 +74,11 @@ MENUS = {'recession': MENU_RECESSION, 'rise': MENU_RISE}
 SHIFTS = [1000.0, -7.5, 1.6e9]
 
 
+def decoy():
+    from mc.lib import decoy as decoy_mod
+    decoy_mod.functions()
+
+
 def BOUND(tier):
     return ('all multisets of up to 4 of 100 lattice paths for the group '
             'finder; all multisets of 2..%d pieces from two menus of 10 pieces x all '
@@ -150,7 +155,7 @@ def components_space(k):
         return {'kind': 'components', 'pieces': out}
     del combos
     return Space('get_connected_components/multisets of %d lattice paths'
-                 % k, size, decode)
+                 % k, size, decode, decoy_every=50000)
 
 
 def run_components(case):
